@@ -22,6 +22,7 @@ class Mol:
         self.atoms = []          # dict(element, charge, aromatic)
         self.bonds = {}          # frozenset({i,j}) -> order (1,2,3 or 1.5)
         self.hfix = {}           # atom -> fixed hydrogen count (copies of shared atoms)
+        self.arom_rings = []     # aromatic template rings (atom ids in ring order)
 
     def add_atom(self, element, charge=0, aromatic=False):
         self.atoms.append(dict(element=element, charge=charge, aromatic=aromatic))
@@ -99,6 +100,22 @@ class Mol:
         return sum(MASS[a['element']] for a in self.atoms) + MASS['H'] * sum(self.hcount(i) for i in range(len(self.atoms)))
 
 
+def kekulized(R, m):
+    """copy of m in which every aromatic template ring is written as one of its two Kekule
+    structures (upper-case atoms, alternating single/double bonds); hydrogen counts are unchanged"""
+    k = copy.deepcopy(m)
+    for ring in m.arom_rings:
+        off = R.randint(0, 1)
+        for i in range(6):
+            a, b = ring[i], ring[(i + 1) % 6]
+            k.bonds[frozenset((a, b))] = 2 if (i + off) % 2 == 0 else 1
+        for a in ring:
+            k.atoms[a]['aromatic'] = False
+    for i in range(len(m.atoms)):
+        k.hfix[i] = m.hcount(i)
+    return k
+
+
 def model_graph(mj):
     """heavy-atom graph of a model molecule (json form) for isomorphism checks"""
     g = nx.Graph()
@@ -128,6 +145,7 @@ def gen_mol(R, max_heavy=10, min_heavy=1, p_ring=0.5, p_arom=0.35, p_multi=0.4, 
         ids = [m.add_atom(e, aromatic=True) for e in els]
         for a in range(6):
             m.add_bond(ids[a], ids[(a + 1) % 6], 1.5)
+        m.arom_rings.append(ids)
         if attach is not None:
             cands = [i for i in ids if m.atoms[i]['element'] == 'C']
             m.add_bond(attach, R.choice(cands), 1)
@@ -456,7 +474,7 @@ def build_cgsmiles(R, m, owner, kinds=('$', '><'), style=None, names=None, feats
                                       base_s=base_s, frag_defs=frs, slashes=rinfo.get('slashes', []))
 
 
-def write_base(R, base, names, orders_sym=None, tokens=None):
+def write_base(R, base, names, orders_sym=None, tokens=None, late_tokens=None):
     """own CGsmiles graph writer: random root / neighbour order; ring bond symbol at the opening
     marker; tokens: optional node -> full token text (default '[#name]')"""
     orders_sym = orders_sym or {0: '.', 1: '', 2: '=', 3: '#', 4: '$'}
@@ -509,12 +527,19 @@ def write_base(R, base, names, orders_sym=None, tokens=None):
         toks.sort(key=lambda t: t[0] >= 10)
         out.extend(t for _, t in toks)
         kids = children[u]
+        late = (late_tokens or {}).get(u, '')
+        if late and len(kids) < 2:
+            out.append(late)        # no closed branch to write it after
+            late = ''
         for k, v in enumerate(kids):
             s = orders_sym[base.edges[u, v]['order']]
             if k < len(kids) - 1:
                 out.append(s + '(')
                 write(v)
                 out.append(')')
+                if late and k == len(kids) - 2:
+                    out.append(late)    # descriptors written after the last closed branch of the node
+                    late = ''
             else:
                 out.append(s)
                 write(v)
@@ -535,6 +560,10 @@ MOL_CLASSES = [
     dict(name='cyclic', max_heavy=12, min_heavy=4, p_ring=0.8, p_arom=0.0, p_multi=0.3, p_charge=0.2),
     dict(name='aromatic', max_heavy=12, min_heavy=6, p_ring=0.3, p_arom=0.9, p_multi=0.3, p_charge=0.2),
     dict(name='mixed', max_heavy=14, min_heavy=5, p_ring=0.5, p_arom=0.5, p_multi=0.4, p_charge=0.3),
+    # sulfur next to aromatic rings: in the text 'S' is then often directly followed by 'c' (the letters
+    # of the element Sc), likewise 'C' + 'n'/'o'/'s' would be; exercises the tokenisation of atoms
+    dict(name='thioaryl', max_heavy=12, min_heavy=7, p_ring=0.1, p_arom=0.9, p_multi=0.2, p_charge=0.1,
+         elements=['S', 'S', 'C', 'C', 'N', 'O']),
 ]
 
 
@@ -643,19 +672,37 @@ def build_shared(R, m, owner, share=0.5, kinds=('$', '><'), style=None, feats=No
                 feats.add('shared_aromatic')
             if m.atoms[v]['charge']:
                 feats.add('shared_charged')
+    # two bonded atoms of one fragment that are both shared into the same other fragment: that
+    # fragment may contain their bond as well (the fragments then overlap in a bond)
+    by_target = defaultdict(list)
+    for (v, F), vp in copies.items():
+        by_target[F].append((v, vp))
+    for F, lst in by_target.items():
+        for (v, vp), (w, wp) in itertools.combinations(lst, 2):
+            b = frozenset((v, w))
+            if b in m.bonds and owner[v] == owner[w] and R.chance(0.6):
+                m2.add_bond(vp, wp, m.bonds[b])
+                feats.add('fragments_overlap_in_a_bond')
     for (i, j) in cut:
         if (i, j) in handled:
             continue
         o = m.order(i, j)
-        fi, fj = owner[i], owner[j]
+        # an ordinary descriptor of a shared atom may be written on any of its copies
+        hi = R.choice([i] + [vp for (v, F), vp in copies.items() if v == i and F != owner[j]])
+        hj = R.choice([j] + [vp for (v, F), vp in copies.items() if v == j and F != owner2[hi]])
+        fi, fj = owner2[hi], owner2[hj]
+        if fi == fj:
+            hi, hj, fi, fj = i, j, owner[i], owner[j]
+        if hi != i or hj != j:
+            feats.add('ordinary_descriptor_on_copy_of_shared_atom')
         lab = next(labels)
         kind = R.choice(kinds)
         if kind == '$':
             di = dj = '[$%s]' % lab
         else:
             di, dj = ('[>%s]' % lab, '[<%s]' % lab)
-        desc[fi][i].append(ORDER_SYM[o] + di)
-        desc[fj][j].append(ORDER_SYM[o] + dj)
+        desc[fi][hi].append(ORDER_SYM[o] + di)
+        desc[fj][hj].append(ORDER_SYM[o] + dj)
         bump(fi, fj)
         if i in shared_home or j in shared_home:
             feats.add('shared_with_ordinary_descriptor')
